@@ -420,6 +420,43 @@ def cold_jobs():
     return [{'modules': COLD_MODULES, 'jobs': [f, others], 'k': 1} for f in firsts]
 
 
+def phase_g(ctx):
+    """Valid values in unusual clothes (bool, int subclass, IntEnum member, a numpy-like Integral that is no
+    int): the encoding equals the reference, bin() and len() agree, and decoding the encoding gives a
+    message equal to the original."""
+    n = 0
+    for ti, t in enumerate(midi1.TYPES):
+        if ti % ctx.nshards != ctx.shard:
+            continue
+        for a in list(gen.boundary_attr_sets(t))[:40:3]:
+            variants = {}
+            for name, v in a.items():
+                if name == 'data':
+                    variants[name] = [list(map(gen.I64, v)), tuple(gen.exotic_ints(x)[0] for x in v)]
+                else:
+                    variants[name] = gen.exotic_ints(v)
+            for k in range(4):
+                kw = {name: vs[k % len(vs)] for name, vs in variants.items()}
+                tm = (gen.I64(7), True, 0, gen.exotic_ints(3)[0])[k]
+                case = {'kind': 'exotic', 'type': t, 'attrs': {n_: repr(v) for n_, v in kw.items()}, 'time': repr(tm)}
+                try:
+                    m = Message(t, time=tm, **kw)
+                    ref = midi1.encode(t, a)
+                    b = m.bytes()
+                    ctx.check('enc==ref', list(b) == ref and len(m) == len(ref) and list(m.bin()) == ref, 'exotic-types:encode', case,
+                              lambda: {'got': [repr(x) for x in b][:8], 'ref': ref[:8]})
+                    for src in (b, m.bin(), list(m.bin())):
+                        d = Message.from_bytes(src, time=tm)
+                        ctx.check('from_bytes==m', d == m and d == Message(t, time=int(tm), **a), 'exotic-types:decode', case,
+                                  lambda: repr(d)[:200])
+                except Exception as exc:
+                    ctx.fail('from_bytes==m', f'exotic-types:{type(exc).__name__}', case, f'{type(exc).__name__}: {exc}')
+                n += 1
+    ctx.nontrivial(None, n)
+    ctx.extra('exotic_type_cases', n)
+    ctx.count('cases', n)
+
+
 def phase_f(ctx):
     """Cold start (vmon.coldstart): the first codec calls of a fresh interpreter, two threads."""
     from .. import coldstart
@@ -432,6 +469,7 @@ def run(ctx):
     phase_e(ctx)
     phase_d(ctx)
     phase_f(ctx)
+    phase_g(ctx)
 
 
 def replay(ctx, case):
@@ -454,6 +492,9 @@ def replay(ctx, case):
             history(ctx, case['type'], case['steps'], case['seed'])
         except Exception as exc:
             ctx.fail('history enc==ref', f'history-raised:{type(exc).__name__}', case, f'{type(exc).__name__}: {exc}')
+        return
+    elif k == 'exotic':
+        phase_g(ctx)
         return
     elif k == 'cold':
         from .. import coldstart
